@@ -702,12 +702,13 @@ def check_numbering(a: Analysed, J: Judge) -> None:
     nodes = [n for n in root.walk() if n.category in ("cap", "regcap") and n.regex is not None]
     firsts = [n for n in nodes if getattr(n, "first_occurrence", False)]
     calls = [n for n in nodes if not getattr(n, "first_occurrence", False)]
-    # capturing groups outside first occurrences?  (first occurrences are cut out of the final regex)
-    tmpl, counts = substitute_children(a.regex, [(f"r{i}", n.regex, "ref") for i, n in enumerate(firsts)])
-    ast = rx.parse(tmpl)
-    stray = rx.groups(ast, "cap")
-    J.put("G1.census", not stray, root, f"{len(stray)} stray capturing group(s)",
-          "no capturing group is emitted outside capture-group first occurrences")
+    # capturing groups / back-references outside capture-group nodes?  (those nodes are holes in census_tmpl)
+    ct = getattr(a, "census_tmpl", None)
+    if ct is not None:
+        ast = rx.parse(ct)
+        stray = rx.groups(ast, "cap") + rx.backrefs(ast)
+        J.put("G1.census", not stray, root, f"{len(stray)} stray capturing group(s)/back-reference(s)",
+              "no capturing group or back-reference is emitted outside capture-group nodes")
     # emission order: children in list order (rules A2/R3), deref fields in the order of rule D1
     emitted = []
     for n in emission_order(root):
